@@ -144,7 +144,7 @@ Example c10_example_run :
        RApply 0 4 4 2 0 0 false 2 true true false ]
   /\ map row_seq (s_rows (y_store (run init_sys ex_ops))) = [3; 4]
   /\ C10_monitor (C10Hist (trace init_sys ex_ops)) = 0.
-Proof. vm_compute. repeat split; reflexivity. Qed.
+Proof. repeat split; vm_compute; reflexivity. Qed.
 
 (* the monitor is not trivially 0: a page with a message above the committed watermark, a page below
    the retention boundary, a SyncOnce record in a sync page, a regressing boundary and an ungated
@@ -159,7 +159,7 @@ Example c10_monitor_rejects :
   /\ monitor_steps pre [] [mkStep (OApply 2 0 0) (RApply 0 2 2 2 2 2 false 0 false true true)
                              (mkSnap [3] 3 2 2 2 3 (mkRState RoleLeader 1 [1; 2] [(2, 1)] 3 3 3 2 2 2))] = 1
   /\ monitor_steps pre [] [mkStep (ORead (mkReq 0 0 0 10 0 false) 0 2) (RRead 0 [(2, false)] 3) pre] = 0.
-Proof. vm_compute. repeat split; reflexivity. Qed.
+Proof. repeat split; vm_compute; reflexivity. Qed.
 
 (* fixed finding C10-K1 (repo commit d06215a91): forward read, FromSeq = 0, committed watermark 0.
    The guard returns the empty page; without it the clamped request (MaxSeq = 0 = "unbounded")
@@ -170,7 +170,7 @@ Example c10_k1_fixed :
   committed_of s 2 = 0
   /\ readLocalCommitted s q 0 2 = ([], 1)
   /\ map row_seq (fst (ReadCommitted s (clamp_req s q 0 2))) = [1; 2; 3].
-Proof. vm_compute. repeat split; reflexivity. Qed.
+Proof. repeat split; vm_compute; reflexivity. Qed.
 
 (* modelling note of DESIGN §7 C10: for an ISR member WITHOUT recorded progress the decision
    substitutes RetentionThroughSeq, which handleApplyRetentionBoundary has just raised to the
@@ -179,4 +179,4 @@ Example c10_unknown_progress_is_vacuous :
   let st := mkRState RoleLeader 1 [1; 2] [] 5 5 5 0 0 0 in
   retentionTrimDecision (with_retention st 4) 4 = (true, 0)
   /\ retentionTrimDecision (mkRState RoleLeader 1 [1; 2] [(2, 3)] 5 5 5 4 0 0) 4 = (false, 4).
-Proof. vm_compute. split; reflexivity. Qed.
+Proof. split; vm_compute; reflexivity. Qed.
